@@ -177,6 +177,9 @@ func (o *oracle) checkGenerated(st *stats, h *format.Header, tail []byte) {
 			return fmt.Sprintf("Marshal then Parse of a well-formed header gives a header that differs in: %s", d)
 		})
 	}
+	if perr == nil {
+		st.sample("generated header: Marshal -> Parse equal, canonical through every reader variant", map[string]any{"marshalled": fmt.Sprintf("%+q", mon.Trunc(b, 400)), "stanzas": len(h.Recipients), "tail_bytes": len(tail)})
+	}
 	// the canonical-form oracle and every reader variant on the same bytes
 	o.check(st, x, lvAll, 0)
 }
@@ -252,6 +255,7 @@ func runGenerated(o *oracle, nRandom int) {
 	mon.Par(jobs, func(j int) {
 		r.Guard(fmt.Sprintf("generated job %d", j), func() {
 			st := newStats("generated")
+			st.sampling = j == 0
 			rng := r.RNG(fmt.Sprintf("c07-gen-%d", j))
 			for c := 0; c < per && j*per+c < nRandom; c++ {
 				h := genHeader(rng)
